@@ -149,5 +149,29 @@ class Ctx:
              "theorems": list(theorems)}
         )
 
+    def guard(self, key: str, case: Any):
+        """Context manager: an exception raised by the implementation on an input inside the
+        property's quantifier is a failure of the property (not a harness crash)."""
+        ctx = self
+
+        class _G:
+            failed = False
+
+            def __enter__(self_g):
+                return self_g
+
+            def __exit__(self_g, et, ev, tb):
+                if et is None or not issubclass(et, Exception):
+                    return False
+                import traceback as _tb
+                self_g.failed = True
+                frames = _tb.extract_tb(tb)
+                where = f"{frames[-1].filename.split('/')[-1]}:{frames[-1].lineno}" if frames else ""
+                ctx.violation(f"{key}:{et.__name__}", f"implementation raised {et.__name__}: {str(ev)[:160]} ({where})",
+                              case, {"exception": et.__name__})
+                return True
+
+        return _G()
+
     def elapsed(self) -> float:
         return time.time() - self.t0
